@@ -205,7 +205,10 @@ def run_property(prop, module, tier, replay=None):
         except AnalysisBroken as e:
             # a rule instance that already failed is a verdict of its own; the analysis being cut short afterwards
             # (anchor moved, count below the pinned minimum) must not hide it
-            if any(not o.ok for o in ctx.obs):
+            # (a failed instance that the known-findings file lists is no verdict of this run: with nothing else failed
+            # the broken analysis stays "no verdict")
+            _kk = {k["key"] for k in load_known() if k.get("property") == prop and k.get("status") == "known"}
+            if any(not o.ok and getattr(o, "key", None) not in _kk for o in ctx.obs):
                 incomplete = str(e)
                 ctx.note("analysis incomplete after the reported violation(s): " + incomplete)
             else:
